@@ -807,6 +807,9 @@ func jsonCase(c *h.Case, k int) {
 		{"Variadic", []interface{}{"p"}},
 		{"Any", []interface{}{tree}},
 		{"NoArgs", nil},
+		{"Bytes", []interface{}{[]byte(nil)}},
+		{"Any", []interface{}{nil}},
+		{"Slices", []interface{}{[]int(nil), []string{}, [][]byte{nil}, []interface{}{nil}, []float64(nil)}},
 	}
 	m := ms[k%len(ms)]
 	method := svc.Get(m.name)
